@@ -561,6 +561,18 @@ theorem C08_fixsigns_ref_pinned_counterexample :
     (fixsignsRefG exampleServices true K O).map (fun A => A.get [0, 0, 0]) = .ok (-2) ∧
     K.get [0, 0, 0] = -2 := by decide
 
+/-- The witness of the repaired defect, seen through the alignment normal form: before the call
+component 0 has sign scores `-1, 0, 1` (not aligned: the negative one is not of least magnitude);
+the call flips modes 0 and 1 and the component is aligned; a second call changes nothing. -/
+example :
+    let K : Ktensor Int := ⟨[2], [[[-1], [0]], [[1], [0]], [[1], [0]]]⟩
+    let O : Ktensor Int := ⟨[1], [[[1], [0]], [[0], [1]], [[1], [0]]]⟩
+    refScores K O 0 = [-1, 0, 1] ∧ alignedComp K O 0 = false ∧
+    (fixsignsRefG exampleServices true K O).map (fun A => (refScores A O 0, alignedComp A O 0))
+      = .ok ([1, 0, 1], true) ∧
+    ((fixsignsRefG exampleServices true K O).bind fun A => fixsignsRefG exampleServices true A O)
+      = fixsignsRefG exampleServices true K O := by decide
+
 example : isPermOf [2, 0, 1] 3 = true := by decide
 example : (⟨[2, 3], [[[1, 2], [3, 4]]]⟩ : Ktensor Int).WF := by
   intro A hA row hrow
